@@ -1200,7 +1200,10 @@ class Application():
         try:
             if isinstance(response, FileObjResponse) and \
                     "wsgi.file_wrapper" in env and not skip_sendfile:
-                return env['wsgi.file_wrapper'](response(start_response))
+                body = response(start_response)
+                if not hasattr(body, 'read'):   # 204 / 304 have no body
+                    return body
+                return env['wsgi.file_wrapper'](body)
             return response(start_response)         # return bytes generator
         except HTTPException as http_err:  # HTTP_RANGE_NOT_SATISFIABLE case
             response = http_err.make_response()
